@@ -354,6 +354,40 @@ def chains(ctx):
         others = [param_path(arg(an, bb, t, i)) for i in range(1, 5)]
         ctx.check(others == [("client_addr", []), ("server_addr", []), ("protocol", []), ("user", [])], R, "C18/chain/%s/context" % label, site(b, bb),
                   reason="filters are called with %s" % others, detail="%s: same request context for every filter" % label)
+        # the loop over the filters is left only when the list of filters is exhausted or a filter failed (`?`): no early exit
+        gch = ctx.graph(b)
+        nxt = [(nb2, nt2) for nb2, nt2 in calls(b, "Iterator::next")]
+        early = []
+        if nxt:
+            hb = nxt[0][0]
+            loop_blocks = set(x for x in range(len(b.blocks)) if not b.blocks[x].cleanup
+                              and gch.path(gch.nodes_of_bb(x), [hb]) is not None and gch.path(gch.nodes_of_bb(hb), [x]) is not None)
+            for x in sorted(loop_blocks):
+                blk = b.blocks[x]
+                for y in blk.term.successors():
+                    if y in loop_blocks or b.blocks[y].cleanup or b.blocks[y].term.kind == "unreachable":
+                        continue
+                    kind = None
+                    if blk.term.kind == "switch":
+                        e9, ls9 = an.switch_info(x)
+                        labs = ls9.get(y, [])
+                        x9 = flow.strip(e9)
+                        if "None" in labs and x9[0] == "call" and flow.short(x9[1]).endswith("Iterator::next"):
+                            kind = "exhausted"
+                        elif "Break" in labs:
+                            kind = "error"
+                        elif b.is_noise(blk.term):
+                            kind = "noise"
+                        elif x9[0] == "call" and flow.short(x9[1]).endswith(("Future::poll",)) or x9[0] in ("await",):
+                            kind = "poll"
+                    elif blk.term.kind in ("yield", "drop", "goto", "call", "falseedge", "falseunwind", "assert"):
+                        kind = "plumbing"
+                    if kind is None:
+                        early.append(site(b, x))
+        ctx.check(not early, R, "C18/chain/%s/no-early-exit" % label, site(b, bb),
+                  reason="the filter loop can be left before every filter ran, by a branch at %s that is neither the end of the list nor an error: the "
+                         "remaining filters (block lists, later metadata rules) never see the surviving targets" % early,
+                  detail="%s: the loop ends only when the filters are exhausted or one fails" % label)
         it = arg(an, bb, t, 0)
         nx = calls_in(it, "Iterator::next")
         ctx.check(bool(nx) and not calls_in(it, "Iterator::rev") and not calls_in(it, "Iterator::skip") and not calls_in(it, "Iterator::take"), R,
